@@ -172,7 +172,7 @@ class MechSubject(Subject):
 
 class PopSubject(Subject):
     kind = 'pop'
-    evals = ('ll', 's1', 's1r', 'indiv', 'sample', 'nhier')
+    evals = ('ll', 's1', 's1r', 'indiv', 'sample', 'nhier', 'special')
 
     def build(self, reduced):
         import chi
@@ -215,6 +215,12 @@ class PopSubject(Subject):
         k = self._k(op)
         if which == 'nhier':
             return list(target.n_hierarchical_parameters(k))
+        if which == 'special':
+            # (asked twice: the answer is a description, not a counter)
+            target.get_special_dims()
+            sd, n_pooled, n_hetero = target.get_special_dims()
+            return [[[int(v) for v in s_[:4]] + [bool(s_[4])] for s_ in sd],
+                    int(n_pooled), int(n_hetero)]
         if which == 'indiv':
             return np.array(target.compute_individual_parameters(
                 x, np.array(op['eta'], dtype=float)[:k], **kw))
@@ -244,6 +250,14 @@ class PopSubject(Subject):
         free = [i for i in range(len(self.names)) if i not in ref]
         if which == 'nhier':
             return [res[0], len(free)]
+        if which == 'special':
+            # positions among the FREE parameters
+            fixed = sorted(ref)
+            sd = [[s_[0], s_[1],
+                   s_[2] - sum(1 for i in fixed if i < s_[2]),
+                   s_[3] - sum(1 for i in fixed if i < s_[3]), s_[4]]
+                  for s_ in res[0]]
+            return [sd, res[1], res[2]]
         if which == 's1':
             score, dpsi, dtheta = res
             return score, dpsi, np.asarray(dtheta)[free]
